@@ -337,16 +337,16 @@ def run(out, tier, seed):
     # --- MC + GEN, exhaustive: prefix + every single message of the grammar
     r = vlib.tlc("Server", "Server_s_bfs.cfg", workers=8, timeout=1800, coverage=True, heap="8g")
     vlib.require_ok(r, "Server seq bfs")
-    out.add_tlc(r, "MC (Alive, AtMostOneResponse, AllAnswered, NoDeadlock, LockDiscipline, EditSafety) + GEN: prefix + every message")
+    out.add_tlc(r, "MC (Alive, AtMostOneResponse, AllAnswered, NoDeadlock, LockDiscipline, StoreApplied, EditSafety) + GEN: prefix + every message")
     bfs = list(r.cases())
     out.cov["action_coverage"].update(server_common.require_actions(r, SEQ_ACTIONS, "Server (seq)"))
     if len(bfs) < 2000:
         raise vlib.ToolError("too few single-message scripts emitted")
     # --- vacuity of the invariants: the pre-repair design and the out-of-grammar messages must break Alive
-    for cfg in ("Server_x_s_old.cfg", "Server_x_s_fatal.cfg"):
+    for cfg, inv in (("Server_x_s_old.cfg", "Alive"), ("Server_x_s_fatal.cfg", "Alive"), ("Server_x_s_wdel.cfg", "StoreApplied")):
         rx = vlib.tlc("Server", cfg, workers=8, timeout=900)
-        if not rx.violated or "Invariant Alive is violated" not in rx.out:
-            raise vlib.ToolError(f"{cfg}: Alive was expected to be violated (vacuity check)")
+        if not rx.violated or f"Invariant {inv} is violated" not in rx.out:
+            raise vlib.ToolError(f"{cfg}: {inv} was expected to be violated (vacuity check)")
         out.add_tlc(rx, "expected violation " + cfg)
     # --- GEN, simulation: longer scripts
     nsim = 300 if tier == "quick" else 10000
